@@ -136,6 +136,12 @@ def generate(spec: dict, root: str) -> str:
         os.makedirs(os.path.dirname(path), exist_ok=True)
         with open(path, 'w', encoding='utf-8') as fd:
             fd.write('payload of ' + item)
+    if spec.get('namespace') and '.' in package:
+        # the top level of the package path is an implicit namespace package (a directory without __init__.py), the way the
+        # repository's own helloworld package is laid out (hello/world/...)
+        init = os.path.join(root, package.split('.')[0], '__init__.py')
+        if os.path.exists(init):
+            os.unlink(init)
     return root
 
 
